@@ -1,5 +1,5 @@
 """C12 - no stale derived state after any sequence of edits; deep copies are independent."""
-import io, contextlib, copy, math, warnings
+import io, contextlib, copy, math, warnings, json
 from fractions import Fraction as F
 from core import Family, call
 import gal as G
@@ -1067,7 +1067,10 @@ class Hist(Family):
                 cs = list(range(len(cobs))) if k == n else st["fc"]
                 st["gobs"] = [[i, gobs[i]] for i in gs if i < len(gobs)]
                 st["cobs"] = [[j, cobs[j]] for j in cs if j < len(cobs) and cobs[j] is not None]
-            res = {"steps": steps[:len(per)], "oracle": oracle_msgs}
+            # the observations are kept as one JSON string: millions of small live list objects would make the
+            # garbage collector of the (single) harness process quadratic
+            res = {"blob": json.dumps({"steps": steps[:len(per)]}), "oracle": oracle_msgs,
+                   "outs": [("ok" if "ok" in st["out"] else "err") for st in steps[:len(per)]]}
             bad = [x for x in oracle_msgs if not x[2]]
             if bad:
                 res["shrunk"] = shrink(ops[:bad[0][0]], history_fails)
@@ -1077,7 +1080,7 @@ class Hist(Family):
     def coq(self, c, out):
         if "ok" not in out:
             return None
-        steps = out["ok"]["steps"]
+        steps = json.loads(out["ok"]["blob"])["steps"]
         ops = c["ops"][:len(steps)]
         gops, exps = [], []
         pdims = []
@@ -1133,10 +1136,10 @@ class Hist(Family):
         if "ok" not in out:
             return False
         seen_read = False
-        for op, st in zip(c["ops"], out["ok"]["steps"]):
+        for op, st in zip(c["ops"], out["ok"]["outs"]):
             if not is_mutator(op):
                 seen_read = True
-            elif seen_read and "ok" in st["out"] and op[0] in ("g", "c"):
+            elif seen_read and st == "ok" and op[0] in ("g", "c"):
                 return True
         return False
 
